@@ -34,6 +34,9 @@ CLAIMS = {
     "C09": ("nodal load vectors produced by add_lineLoad / add_surfLoad / add_volumeLoad / add_pressureLoad / add_neumann and the Hermitian beam line load are observed through Bc_vector_Neumann and compared with exact integrals (force resultant and first moments about a random point) of polynomial densities given as constants, nodal arrays and callables, on straight edges, planar faces and whole domains of every element type, for every simulation type accepting the load, with stray nodes in the selection and random thickness",
             "density degree within the exactness of the element's mass rule; pressure judged by magnitude and collinearity (sign follows the C08 orientation finding)",
             "reference-model oracle (exact polynomial integrals) on the recorded Neumann vector"),
+    "C10": ("twin execution: every generated problem (Elastic 2D/3D with all four laws and rotated material axes, Thermal incl. embedded surfaces and lines, HyperElastic, Beam EB/Timoshenko members and welded frames, static and one Newmark step) is solved together with its image under a random proper or improper rigid motion, built either from transformed arrays or by moving the mesh object; vectors must rotate, scalars and energies must not change, beam rotations transform as axial vectors; single cantilevers are also compared with the closed-form member response",
+            "Dirichlet data on all components of constrained nodes; triclinic laws moved by proper rotations only; tolerance 1e-8 (1e-6 hyperelastic)",
+            "twin-execution oracle (metamorphic relation between two real solutions) + closed-form member response"),
 }
 
 
